@@ -732,7 +732,12 @@ fn part_paths(thorough: bool, seed: u64, sha1_ok: bool) -> Acc {
                                       "observed_shard": got, "sharder_shard": want_sharder, "reference": want_ref}));
                 }
                 if let Some((o, detail)) = outcome {
-                    let sig = format!("C06|path={}|fn={}|key={}|outcome={}", case.path, fname, kc, o);
+                    // the hash function only matters when a shard WAS chosen
+                    let sig = if o == "wrong_shard" {
+                        format!("C06|path={}|fn={}|key={}|outcome={}", case.path, fname, kc, o)
+                    } else {
+                        format!("C06|path={}|key={}|outcome={}", case.path, kc, o)
+                    };
                     let desc = format!(
                         "path {}: input `{}` (key {}, {} shards, {}) -> QueryRouter::shard() = {:?} ({}), Sharder::shard = {}, reference = {}",
                         case.path, case.text, k, n, fname, got, detail, want_sharder, want_ref
